@@ -65,7 +65,10 @@ Inductive gobs := GGo (g : gval) | GThrow | GPanic.
 Inductive case :=
 | CCall (params : list gkind) (args : list sval) (ret : option gval) (orc : oracle)
         (got : list gval) (res : robs)
-| CGen (k : gkind) (v : sval) (orc : oracle) (o : gobs).
+| CGen (k : gkind) (v : sval) (orc : oracle) (o : gobs)
+(* new T(args): fields = the kinds of T's public fields in order; got = the fields of the new
+   instance as a method of T saw them afterwards; res = RNil (constructed) / RThrow / RPanic *)
+| CCtor (fields : list gkind) (args : list sval) (orc : oracle) (got : list gval) (res : robs).
 
 (* failing clauses:
    1 model/implementation disagree (tie)
@@ -87,6 +90,21 @@ Fixpoint some_unrepresentable (lib : golib) (params : list gkind) (args : list s
   | _, _ => false
   end.
 
+Fixpoint ctor_args_match (fields : list gkind) (args : list sval) : bool :=
+  match fields, args with
+  | _, [] => true
+  | k :: fs, a :: r => wf a && matching a k && ctor_args_match fs r
+  | [], _ :: _ => true
+  end.
+Definition ctor_all_match (fields : list gkind) (args : list sval) : bool :=
+  forallb ctor_kind_ok fields && ctor_args_match fields args.
+Fixpoint ctor_expected (fields : list gkind) (args : list sval) : list gval :=
+  match fields, args with
+  | [], _ => []
+  | k :: fs, a :: r => inject k a :: ctor_expected fs r
+  | k :: fs, [] => zero_of k :: ctor_expected fs []
+  end.
+
 Definition check_case (c : case) : list nat :=
   match c with
   | CCall params args ret orc got res =>
@@ -104,6 +122,19 @@ Definition check_case (c : case) : list nat :=
        else []) ++
       (if some_unrepresentable lib params args
        then match res with RThrow => [] | _ => [3%nat] end else []) ++
+      (match res with RPanic => [4%nat] | _ => [] end)
+  | CCtor fields args orc got res =>
+      let lib := lib_of orc in
+      (match construct lib fields args, res with
+       | Ok gs, RNil => if gvals_eqb gs got then [] else [1%nat]
+       | Throw, RThrow => []
+       | _, _ => [1%nat]
+       end) ++
+      (* every argument of its field's own sort, all fields settable: each field holds exactly the
+         argument, the remaining fields their zero value *)
+      (if ctor_all_match fields args
+       then match res with RNil => if gvals_eqb (ctor_expected fields args) got then [] else [2%nat] | _ => [2%nat] end
+       else []) ++
       (match res with RPanic => [4%nat] | _ => [] end)
   | CGen k v orc o =>
       let lib := lib_of orc in
